@@ -33,6 +33,9 @@ type Case struct {
 	// Nudges delay a background step (named like a gate point: role:op.kind:phase) until N more
 	// batches were issued or 30 ms passed: cheap schedule steering without blocking anything
 	Nudges []Nudge `json:"nudges,omitempty"`
+	// Window, if set, replaces the plain batch loop by a gated window scenario (unsafe mode):
+	// crash points inside an in-memory merge, a file merge or a pending snapshot write
+	Window *vlib.WindowScenario `json:"window,omitempty"`
 }
 
 // Nudge is one schedule nudge.
@@ -59,6 +62,30 @@ func gen(t *rapid.T) Case {
 		}
 		c.Batches = append(c.Batches, g.Batch(t, maxOps))
 	}
+	if c.Conf.Unsafe && rapid.IntRange(0, 2).Draw(t, "window") > 0 {
+		w := &vlib.WindowScenario{Hold: rapid.SampledFrom(vlib.WindowHolds).Draw(t, "windowHold")}
+		if c.Conf.Merge == "none" || c.Conf.Merge == "nomem" {
+			c.Conf.Merge = "default"
+		}
+		k := len(c.Batches)
+		a, b := k/3+1, 2*k/3+1
+		if a > k {
+			a = k
+		}
+		if b > k {
+			b = k
+		}
+		w.Seed, w.Window, w.After = c.Batches[:a], c.Batches[a:b], c.Batches[b:]
+		if len(w.Seed) < 3 {
+			// at least three seed batches so that segments pile up for the in-memory merge
+			for len(w.Seed) < 3 {
+				w.Seed = append(append([]vlib.BatchSpec(nil), w.Seed...), g.Batch(t, 2))
+			}
+		}
+		c.Batches = nil
+		c.Window = w
+		return c
+	}
 	if c.Conf.Unsafe && rapid.Bool().Draw(t, "hold") {
 		c.HoldSnapshots = rapid.IntRange(1, 3).Draw(t, "holdN")
 	}
@@ -76,6 +103,7 @@ func gen(t *rapid.T) Case {
 
 type stats struct {
 	images, afterAck, torn, tornSnapshot, openFailedAllowed int
+	windowParked                                            bool
 	ntKeys                                                 []string
 }
 
@@ -120,11 +148,31 @@ func prop(c Case, st *stats) *vlib.Failure {
 		}
 		return ic
 	}
+	gates := vlib.NewGates()
+	if c.Window != nil {
+		tweak = vlib.WindowTweak(gates)
+	}
 	rr, f := vlib.StartRecordedRun(c.Conf, path, nil, tweak)
 	if f != nil {
 		return f
 	}
 	m := vlib.NewModel()
+	if c.Window != nil {
+		defer gates.OpenAll()
+		parked, f := vlib.RunWindowScenario(rr, gates, *c.Window, func(b vlib.BatchSpec) *vlib.Failure {
+			if f := rr.Batch(b); f != nil {
+				return f
+			}
+			m.Apply(b)
+			return nil
+		})
+		if f != nil {
+			gates.OpenAll()
+			_ = rr.Finish(false)
+			return f
+		}
+		st.windowParked = parked
+	}
 	for _, b := range c.Batches {
 		if f := rr.Batch(b); f != nil {
 			_ = rr.Finish(false)
@@ -196,7 +244,7 @@ func checkImages(conf vlib.IdxConf, rec *vlib.RunRecord, m *vlib.Model, st *stat
 func timeAfterShort() <-chan time.Time { return time.After(30 * time.Millisecond) }
 
 func TestC02Durability(t *testing.T) {
-	vlib.Check(t, 12, 40, func(rt *rapid.T) {
+	vlib.Check(t, 16, 40, func(rt *rapid.T) {
 		c := gen(rt)
 		var st stats
 		f := vlib.Guard("run", func() *vlib.Failure { return prop(c, &st) })
@@ -212,6 +260,12 @@ func TestC02Durability(t *testing.T) {
 		for _, n := range c.Nudges {
 			cls = append(cls, "nudge:"+n.Point)
 		}
+		if c.Window != nil {
+			cls = append(cls, "window:"+c.Window.Hold)
+			if st.windowParked {
+				cls = append(cls, "window-parked:"+c.Window.Hold)
+			}
+		}
 		canon := vlib.Canon(c)
 		ev.Case(canon, false, append(cls, "runs")...)
 		ev.Evals(st.images - 1)
@@ -223,7 +277,7 @@ func TestC02Durability(t *testing.T) {
 		ev.AddExtra("torn_images", st.torn)
 		ev.AddExtra("torn_snapshot_images", st.tornSnapshot)
 		ev.AddExtra("open_failed_before_first_snapshot", st.openFailedAllowed)
-		if len(c.Batches) <= 3 {
+		if len(c.Batches) <= 3 && c.Window == nil {
 			ev.Sample(map[string]interface{}{"case": c, "images": st.images, "images_after_ack": st.afterAck}, st.afterAck > 0)
 		}
 		vlib.Report(rt, ev, "durability", c, f)
